@@ -424,6 +424,8 @@ class Facts:
     def __init__(self, path):
         with open(path) as fh:
             d = json.load(fh)
+        from .inline import apply as _inline_new_helpers
+        self.inline_summary = _inline_new_helpers(d)
         self.raw = d
         self.path = path
         self.nonce = d["nonce"]
@@ -443,6 +445,12 @@ class Facts:
         for f in self.fn_list:
             if f.parent and f.parent in self.fns and (f.is_closure or f.root):
                 self.fns[f.parent].closures.append(f)
+        # closures defined in a helper that was inlined also belong to the body it was inlined into
+        for g in self.fn_list:
+            for hp in g.j.get("inlined", ()):
+                for f in self.fn_list:
+                    if f.parent == hp and (f.is_closure or f.root) and f not in g.closures:
+                        g.closures.append(f)
         self.adts = {a["path"]: a for a in d["adts"]}
         self.impls = d["impls"]
         self.traits = {t["path"]: t for t in d["traits"]}
